@@ -5,6 +5,7 @@ import (
 	"os"
 	"path/filepath"
 	"sort"
+	"sync"
 	"testing"
 
 	"github.com/ethereum/go-ethereum/common"
@@ -257,7 +258,36 @@ func c04Prop(rt *rapid.T, rec *ev.Recorder) {
 			rec.Class("reorgs_with_fault_enumeration")
 		}
 		if !handled {
-			if err := A.reorg(pt); err != nil {
+			// clients keep querying while the node handles the reorg (their answers are not judged: each is served from
+			// some moment before, during or after it; what matters is the state the node is left in)
+			var stopReaders chan struct{}
+			var readersDone sync.WaitGroup
+			if rapid.IntRange(0, 2).Draw(rt, "queriesDuringReorg") == 0 {
+				calls := buildBattery(rt, A.facade(), poolsOf(worldOf(k, survivors), survivors, nil), 3)
+				stopReaders = make(chan struct{})
+				for g := 0; g < 2 && len(calls) > 0; g++ {
+					readersDone.Add(1)
+					go func(off int) {
+						defer readersDone.Done()
+						for i := off; ; i++ {
+							select {
+							case <-stopReaders:
+								return
+							default:
+							}
+							_, _ = runCall(A.facade(), calls[i%len(calls)])
+						}
+					}(g * 7)
+				}
+				key += "C"
+				rec.Class("reorgs_with_concurrent_queries")
+			}
+			err := A.reorg(pt)
+			if stopReaders != nil {
+				close(stopReaders)
+				readersDone.Wait()
+			}
+			if err != nil {
 				fatal(rt, "Reorg(%d): %v", pt, err)
 			}
 		}
